@@ -182,6 +182,16 @@ def acLine (d : ACDrv) (lineNo : Nat) (ts : List String) : ACDrv × List String 
         let (d, o) := viol d vIso
         ({ d with mismatches := d.mismatches + 1 }, mism d "observer callback not invoked or no hand state shown" ++ o)
     | _, _ => (d, [s!"BADLINE {lineNo} ac-observe"])
+  | "observe-late" :: _ =>
+    -- a listener registered on an observer that has just been taken out of system mode: what it is handed (if anything)
+    let d := { d with cnt := d.cnt.bump "observer.late-listener" }
+    match parsePriv post with
+    | some outP =>
+      let hidden := outP.deck.isEmpty && outP.burned.isEmpty &&
+        (if outP.event == "GameClosed" then outP.holes.all (fun h => !h.1 || (h.2.1.isEmpty && !h.2.2))
+         else outP.holes.all (fun h => h.2.1.isEmpty && !h.2.2))
+      viol d (if hidden then [] else ["C20.observer-shown-hidden-cards"])
+    | none => (d, [])
   | _ => (d, [s!"BADLINE {lineNo} unknown-ac-op"])
 
 def ACDrv.summary (d : ACDrv) : List String :=
